@@ -45,6 +45,8 @@ def walk_worker(arg):
     fails, cnt = replay_mechmodel.replay_walk(arg)
     trace = recorders.abstract_trace(refsim.EVENTS)
     refsim.clear_events()
+    if cnt.get('invalid_calls_accepted'):
+        trace = None        # (the behaviour left the specification: it contains an invalid call that chi accepted)
     return fails, cnt, trace
 
 
